@@ -160,10 +160,12 @@ def ex_stringparser(out):
 
 EXTRACTORS = [ex_stringparser]
 
+HEADER = ["(* GENERATED by harness/vlib/gen_consts.py from the current /repo sources; do not edit *)",
+          "From Coq Require Import List NArith ZArith.", "Import ListNotations.", "Open Scope N_scope.", ""]
+
 
 def generate():
-    out = ["(* GENERATED by harness/vlib/gen_consts.py from the current /repo sources; do not edit *)",
-           "From Coq Require Import List NArith.", "Import ListNotations.", "Open Scope N_scope.", ""]
+    out = list(HEADER)
     for ex in EXTRACTORS:
         out.append("(* %s *)" % ex.__name__)
         ex(out)
@@ -171,20 +173,42 @@ def generate():
     return "\n".join(out) + "\n"
 
 
-def regenerate():
-    """returns (changed, error)"""
-    path = os.path.join(VERIF, "coq", "Gen", "Consts.v")
-    try:
-        txt = generate()
-    except TieError as e:
-        return False, str(e)
+def discovered():
+    """per-property translator modules harness/props/consts_*.py, each with
+    NAME (Coq file name under coq/Gen, without .v) and extract(out)."""
+    import glob, importlib
+    mods = []
+    here = os.path.join(VERIF, "harness", "props")
+    for p in sorted(glob.glob(os.path.join(here, "consts_*.py"))):
+        mods.append(importlib.import_module("props." + os.path.basename(p)[:-3]))
+    return mods
+
+
+def _write_if_changed(name, txt):
+    path = os.path.join(VERIF, "coq", "Gen", name + ".v")
     old = open(path).read() if os.path.exists(path) else None
     if old != txt:
         os.makedirs(os.path.dirname(path), exist_ok=True)
         with open(path, "w") as f:
             f.write(txt)
-        return True, None
-    return False, None
+        return True
+    return False
+
+
+def regenerate():
+    """returns (changed, error)"""
+    changed = False
+    try:
+        changed |= _write_if_changed("Consts", generate())
+        for m in discovered():
+            out = list(HEADER)
+            m.extract(out)
+            changed |= _write_if_changed(m.NAME, "\n".join(out) + "\n")
+    except TieError as e:
+        return False, str(e)
+    except Exception as e:
+        return False, "translator crashed: %r" % (e,)
+    return changed, None
 
 
 if __name__ == "__main__":
